@@ -20,7 +20,12 @@ for p in props:
         "level_note": c.get("note", "Trusted: Lean kernel (axioms propext/Classical.choice/Quot.sound only), the hand-written model (tied to the code by the correspondence run of the same check), the go/ast extractor, the Go harness and its oracle."),
         "technique": c.get("technique", "Lean 4 theorems over an executable model + regenerated facts + model/implementation correspondence"),
     })
-hooks = json.load(open(os.path.join(V, 'hooks.json'))) if os.path.exists(os.path.join(V, 'hooks.json')) else {"source_commits": []}
+import subprocess
+try:
+    log = subprocess.run(['git', '-C', '/repo', 'log', '--format=%h %s'], capture_output=True, text=True).stdout.split('\n')
+    hooks = {"source_commits": [l for l in log if l.split(' ', 1)[-1].startswith('verif:')][::-1]}
+except Exception:
+    hooks = {"source_commits": []}
 m = {"version": 1, "setup_cmd": "./setup.sh",
      "hooks": {"guard": "verif",
                "enable": "go build -tags verif (the harness is built against /repo's working tree through a replace directive); hook files are add-only zz_verif_hooks.go with //go:build verif",
